@@ -287,6 +287,30 @@ pub fn c10(ctx: &mut Ctx, acc: &mut Acc) -> i32 {
         let shape = random_shape(&mut rng);
         one_graph(acc, &shape, "random");
     }
+    // wide graphs: object numbers that need two and three varint bytes (>= 128, >= 16384)
+    if !cfg!(miri) {
+        let sizes: Vec<usize> = if ctx.thorough() { vec![130, 300, 16_500, 40_000] } else { vec![130, 16_500] };
+        for (i, n) in sizes.iter().enumerate() {
+            if i % ctx.shards != ctx.shard {
+                continue;
+            }
+            let mut rng = ctx.rng_for(0xC10 ^ 0x71DE, "wide", *n as u64);
+            let mut edges: Vec<Vec<usize>> = vec![Vec::new(); *n];
+            // the root introduces every other node, then cites a sample of them again (incl. the last ones introduced)
+            edges[0] = (1..*n).collect();
+            for _ in 0..200 {
+                edges[0].push(1 + rng.below(*n as u64 - 1) as usize);
+            }
+            for k in [*n - 1, *n - 2, 126, 127, 128, 16_382, 16_383, 16_384] {
+                if k >= 1 && k < *n {
+                    edges[0].push(k);
+                }
+            }
+            let shape = Shape { labels: (0..*n as u32).collect(), edges };
+            one_graph(acc, &shape, "wide");
+            acc.max("largest_object_number_cited", *n as u64);
+        }
+    }
     // streams citing an object number that was never introduced
     let rounds = ctx.n(30_000, 300_000);
     for r in 0..rounds {
